@@ -130,6 +130,21 @@ ThmAllocScale(ps, m, r) ==
         small == Allocate(ps, r)
     IN Allocate(ps, m * D + r) = [i \in 1..Len(ps) |-> m * nums[i] + small[i]]
 
+\* enumeration of portion vectors: all vectors of k portions (0 allowed) with common denominator
+\* den summing to 100 %, written in lowest terms, and their variants with one positive part
+\* replaced by `remaining`
+RECURSIVE Compositions(_, _)
+Compositions(n, k) ==      \* sequences of k naturals summing to n
+    IF k = 1 THEN {<<n>>}
+    ELSE UNION {{<<x>> \o r : r \in Compositions(n - x, k - 1)} : x \in 0..n}
+Reduced(n, d) == LET g == Gcd(n, d) IN P(n \div g, d \div g)
+PVecsExplicit(den, k) == {[i \in 1..k |-> Reduced(cmp[i], den)] : cmp \in Compositions(den, k)}
+PVecsRemaining(den, k) ==
+    UNION {{[i \in 1..k |-> IF i = j THEN PRem ELSE Reduced(cmp[i], den)] : j \in {x \in 1..k : cmp[x] > 0}} :
+              cmp \in Compositions(den, k)}
+PVecs(maxDen, maxLen) ==
+    UNION {PVecsExplicit(den, k) \cup PVecsRemaining(den, k) : den \in 1..maxDen, k \in 1..maxLen}
+
 \* ---------------------------------------------------------------- fundings (internal/machine/funding.go)
 \* funding = sequence of parts [a |-> account, n |-> amount]
 Part(a, n) == [a |-> a, n |-> n]
@@ -511,6 +526,14 @@ Ideal(prog, bal0) ==
 
 NonZero(posts) == SelectSeq(posts, LAMBDA p : p.n # 0)
 
+\* adjacent postings with the same source, destination and asset merged into one
+RECURSIVE Coalesce(_)
+Coalesce(ps) ==
+    IF Len(ps) <= 1 THEN ps
+    ELSE IF ps[1].s = ps[2].s /\ ps[1].d = ps[2].d /\ ps[1].as = ps[2].as
+         THEN Coalesce(<<[ps[1] EXCEPT !.n = @ + ps[2].n]>> \o SubSeq(ps, 3, Len(ps)))
+         ELSE <<ps[1]>> \o Coalesce(Tail(ps))
+
 \* Class K ("kept, then another clause"): a clause that keeps something (`kept`, or a nested
 \* destination that keeps) is followed, in the same block, by a later clause that draws from the
 \* funding again (in-order block: any later `max` clause, or a receiving `remaining`; allotment
@@ -590,7 +613,14 @@ ThmIdealDest(prog, r, id) == (r.ok /\ (~ProgKeptBeforeReceiver(prog) \/ Cardinal
     LET dests == {r.posts[i].d : i \in 1..Len(r.posts)} \cup {id.posts[i].d : i \in 1..Len(id.posts)}
         assets == {r.posts[i].as : i \in 1..Len(r.posts)}
     IN \A d \in dests : \A as \in assets : Inflow(r.posts, d, as) = Inflow(id.posts, d, as)
-ThmIdealPostings(prog, r, id) == (r.ok /\ ~ProgKeptBeforeReceiver(prog)) => NonZero(r.posts) = id.posts
+\* Outside class K the non-zero postings are those of the amount-level semantics, up to granularity:
+\* the machine merges parts of the same account only when they are adjacent in a funding, so a
+\* zero-amount part of another account between them (e.g. [a 2, world 0, a 1]) leaves two postings
+\* a->d 2, a->d 1 where the amount-level semantics (no zero parts) has the single posting a->d 3
+\* ("class Z", flagged per case by ZeroPartSplit).
+ThmIdealPostings(prog, r, id) == (r.ok /\ ~ProgKeptBeforeReceiver(prog)) =>
+    Coalesce(NonZero(r.posts)) = Coalesce(id.posts)
+ZeroPartSplit(prog, r, id) == r.ok /\ id.ok /\ ~ProgKeptBeforeReceiver(prog) /\ NonZero(r.posts) # id.posts
 ThmIdealBalances(prog, r, id) == (r.ok /\ ~ProgKeptBeforeReceiver(prog)) =>
     \A p \in Tracked(prog) : r.fin[p[1]][p[2]] = id.fin[p[1]][p[2]]
 
@@ -606,6 +636,7 @@ AllTheorems(prog, bal0, r, id) ==
 Outcome(prog, r, id) ==
     [ok |-> r.ok, err |-> r.err, posts |-> r.posts, fin |-> r.fin, txm |-> r.txm, am |-> r.am,
      tracked |-> Tracked(prog), bounded |-> BoundedPairs(prog),
-     iok |-> id.ok, iposts |-> id.posts, kbr |-> ProgKeptBeforeReceiver(prog)]
+     iok |-> id.ok, iposts |-> id.posts, kbr |-> ProgKeptBeforeReceiver(prog),
+     zsplit |-> ZeroPartSplit(prog, r, id)]
 
 =============================================================================
